@@ -222,6 +222,26 @@ def case_eeprom_corrupt(p, prm, tier='thorough'):
             for k, g, v in _ee_fields_equal(r.elements, D.eeprom_decode(img)):
                 p.violation('eeprom:corrupt:fields:%s:%s' % (region, k),
                             what + 'valid image decodes %s=%r, stored bytes say %r' % (k, g, v), rp)
+        # the same element object reads the good image first and the corrupted one afterwards (and back):
+        # the verdict must follow the image read last, not an earlier one
+        if ref is not None and region != 'version':
+            from cflib.crazyflie.mem.i2c_element import I2CElement
+            h = ByteMem(0, image=good)
+            el = h.attach(I2CElement(id=0, type=0, size=h.size, mem_handler=h))
+            verdicts = []
+            try:
+                for image in (good, img, good):
+                    h.img[:] = image
+                    el.update(lambda m: None)
+                    h.pump()
+                    verdicts.append(bool(el.valid))
+            except Exception as e:  # noqa
+                verdicts.append(_exc(e))
+            p.case(key=('ee_reread', tuple(map(repr, prm['base'])), fill, pos, mask), outcome=('reread', region, tuple(verdicts)))
+            if verdicts != [True, bool(ref), True]:
+                p.violation('eeprom:reread:valid_does_not_follow_last_image:' + region,
+                            what + 'one element reading good / corrupted / good image reports valid=%r, the recomputed '
+                            'checksums say %r' % (verdicts, [True, bool(ref), True]), rp)
     return obs
 
 
@@ -467,6 +487,24 @@ def case_ow_corrupt(p, prm, tier='thorough'):
                 p.violation('ow:corrupt:fields:%s' % _ow_cls(region, coll),
                             what + 'valid image decodes to %r/%r, stored bytes say %r'
                             % ((r.pins, r.vid, r.pid), r.elements, dec), rp)
+        # one element object reading good / corrupted / good: the verdict follows the image read last
+        if not ref and not unreadable and (mask in (0x01, 0x80) or 'mask' in prm):
+            from cflib.crazyflie.mem.ow_element import OWElement
+            h2 = ByteMem(0, image=good[:size])
+            el = h2.attach(OWElement(id=1, type=1, size=size, addr='0D00000000000001', mem_handler=h2))
+            verdicts = []
+            try:
+                for image in (good, img, good):
+                    h2.img[:] = image[:size]
+                    el.update(lambda m: None)
+                    h2.pump()
+                    verdicts.append(bool(el.valid))
+            except Exception as e:  # noqa
+                verdicts.append(_exc(e))
+            p.case(key=('ow_reread', prm['tier_bases'], prm['base'], pos, mask), outcome=('reread', region, tuple(verdicts)))
+            if verdicts != [True, False, True]:
+                p.violation('ow:reread:valid_does_not_follow_last_image:' + region,
+                            what + 'one element reading good / corrupted / good image reports valid=%r' % (verdicts,), rp)
     return obs
 
 
@@ -1222,6 +1260,7 @@ class _CrtpDevice:
         from cflib.utils.callbacks import Caller
         self.mems = mems                      # list of (type, bytearray image, addr8)
         self.disconnected = Caller()
+        self.link = self                      # Memory refuses requests while cf.link is None
         self.port_cb = None
         self.replies = []
         self.sent = 0
